@@ -65,7 +65,7 @@ func runC12(c c12Case) (string, bool, sRun) {
 	return "", fired, run
 }
 
-func c12Kinds() []wire.Kind { return allKinds }
+func c12Kinds() []wire.Kind { return append(append([]wire.Kind{}, allKinds...), wire.GetE) }
 
 // TestC12Faults: every command kind x orchestrator x fault site x call index x {error, panic},
 // followed by a second connection's set on the same key.
@@ -78,7 +78,7 @@ func TestC12Faults(t *testing.T) {
 		for _, multi := range []bool{false, true} {
 			for _, kind := range c12Kinds() {
 				for _, nkeys := range []int{1, 2, 4} {
-					if nkeys > 1 && kind != wire.Get {
+					if nkeys > 1 && kind != wire.Get && kind != wire.GetE {
 						continue
 					}
 					for _, init := range []int{0, 1, 2} {
@@ -623,7 +623,8 @@ func TestC12FullPath(t *testing.T) {
 					{Kind: wire.Touch, Key: "ka", Exptime: 10}, {Kind: wire.Get, Keys: []string{"ka"}}, {Kind: wire.Get, Keys: []string{"kn", "ka", "kb"}},
 				}
 				if binary {
-					cmds = append(cmds, wire.Cmd{Kind: wire.Gat, Key: "ka", Exptime: 10}, wire.Cmd{Kind: wire.Get, Keys: []string{"ka", "kn"}, NoopEnd: true})
+					cmds = append(cmds, wire.Cmd{Kind: wire.Gat, Key: "ka", Exptime: 10}, wire.Cmd{Kind: wire.Get, Keys: []string{"ka", "kn"}, NoopEnd: true},
+						wire.Cmd{Kind: wire.GetE, Keys: []string{"ka"}}, wire.Cmd{Kind: wire.GetE, Keys: []string{"kn", "ka"}, NoopEnd: true})
 				}
 				for _, cmd := range cmds {
 					for _, preset := range []bool{true, false} {
